@@ -2,6 +2,7 @@ package sym
 
 import (
 	"go/types"
+	"math"
 	"reflect"
 	"strings"
 )
@@ -186,4 +187,36 @@ func init() {
 	reg("(reflect.Value).Pointer", func(m *Machine, fr *frame, a []Value) Value { return BV(64, 0x1000) })
 	reg("runtime.FuncForPC", func(m *Machine, fr *frame, a []Value) Value { return (*Value)(nil) })
 	reg("(*runtime.Func).Name", func(m *Machine, fr *frame, a []Value) Value { return MkStr("") })
+}
+
+func init() {
+	// concrete floating point only: the bit patterns of values the interpreter holds as Go floats
+	reg("math.Float64bits", func(m *Machine, fr *frame, a []Value) Value {
+		f, ok := a[0].(float64)
+		if !ok {
+			panic(unsupported("math.Float64bits of a symbolic value"))
+		}
+		return BV(64, math.Float64bits(f))
+	})
+	reg("internal/strconv.float64bits", func(m *Machine, fr *frame, a []Value) Value {
+		f, ok := a[0].(float64)
+		if !ok {
+			panic(unsupported("float64bits of a symbolic value"))
+		}
+		return BV(64, math.Float64bits(f))
+	})
+	reg("internal/strconv.float32bits", func(m *Machine, fr *frame, a []Value) Value {
+		f, ok := a[0].(float64)
+		if !ok {
+			panic(unsupported("float32bits of a symbolic value"))
+		}
+		return BV(32, uint64(math.Float32bits(float32(f))))
+	})
+	reg("math.Float64frombits", func(m *Machine, fr *frame, a []Value) Value {
+		t := asTerm(a[0])
+		if !t.IsConst() {
+			panic(unsupported("math.Float64frombits of a symbolic value"))
+		}
+		return math.Float64frombits(t.Val)
+	})
 }
